@@ -1012,6 +1012,45 @@ example : (Whole.run 161 (Whole.run 9 dmaW)).b.m.oam.dmaRunning = true ∧
     ((Whole.run 100 (Whole.run 9 dmaW)).b.read 0xFE00).1 = 0xff := by
   decide +kernel
 
+/-- **the window hypothesis matters.**  `LD HL,FE10; LD A,02; LDH (46),A`, 152 NOPs, `INC HL` (image bytes from 0200
+    on: `i % 251`, so page 02 has 160 distinct bytes), started on a hand-made board in VBlank (LCD on, mode 1, 157
+    cycles before line 0 begins; window closed).  The transfer of page 02 starts in cycle 8 and satisfies every
+    hypothesis of `c16_whole_from` except `Quiet` in its last cycles: 151 cycles into it the PPU enters mode 2 and
+    opens the OAM-bug window; the `INC HL` with HL = FE10 executed 3 cycles later triggers the write corruption of
+    OAM row 3 (C17), which copies bytes 18–23 over bytes 26–31 – long after the engine stored them.  When the engine
+    is done, OAM byte 26 holds source byte 18, not the byte the bus returned when byte 26 was fetched.  (A hand-made
+    start state because reaching VBlank from power-on takes more than 16 000 cycles of the pixel pipeline.) -/
+def bugDmaImg : Cart.Image :=
+  { len := 0x8000,
+    byte := fun i =>
+      if 0x100 ≤ i ∧ i < 0x107 then [0x21, 0x10, 0xFE, 0x3E, 0x02, 0xE0, 0x46].getD (i - 0x100) 0
+      else if i = 0x19F then 0x23
+      else if 0x200 ≤ i then i % 251 else 0 }
+
+def bugDmaW : Whole :=
+  let base := powerOn (.none { rom := Cart.pagesOf bugDmaImg, imgLen := 0x8000 }) false false
+  { base with b := { base.b with m := { base.b.m with
+      ppu := { Lcd.init with mode := 1, ticks := 17399, ly := 152, firstLine := false, oamCorrupt := false },
+      oam := { base.b.m.oam with corrupt := false } } } }
+
+private def bugCheck (w : Whole) : Bool :=
+  decide (NoOamWrite (cpuWrites w)) && decide (NoSwitchOn w.b.m.ppu.enabled (cpuWrites w))
+
+example :
+    -- the hypotheses of `c16_whole_from` other than `hquiet` hold …
+    (Whole.run 162 (Whole.run 7 bugDmaW)).stopped = false ∧
+    (cpuWrites (Whole.run 7 bugDmaW)).map (fun p => (p.1.toNat, p.2.toNat)) = [(0xFF46, 0x02)] ∧
+    allRun (fun w => decide (NoDmaStart (cpuWrites w))) 161 (Whole.run 8 bugDmaW) = true ∧
+    allRun bugCheck 162 (Whole.run 7 bugDmaW) = true ∧
+    -- … the window is closed when the transfer starts and open 151 cycles later …
+    (Whole.run 7 bugDmaW).b.m.oam.corrupt = false ∧ (Whole.run 151 (Whole.run 7 bugDmaW)).b.m.oam.corrupt = true ∧
+    -- … and the conclusion fails at byte 26
+    (Whole.run 162 (Whole.run 7 bugDmaW)).b.m.oam.dmaRunning = false ∧
+    ((Whole.run 162 (Whole.run 7 bugDmaW)).b.m.oam.oam[26]?.getD 0).toNat = 28 ∧
+    ((afterCpu (Whole.run 27 (Whole.run 7 bugDmaW))).2.read (Spec.Dma.sourceAddr 2 26)).1 = 36 ∧
+    ((afterCpu (Whole.run 19 (Whole.run 7 bugDmaW))).2.read (Spec.Dma.sourceAddr 2 18)).1 = 28 := by
+  decide +kernel
+
 /-! ### APU -/
 
 /-- `LD A,F0; LDH (17),A; LD A,87; LDH (19),A`: NR22 = F0 (DAC on), NR24 = 87 triggers channel 2 (f = 700h) -/
